@@ -932,6 +932,9 @@ func runC14(c *Ctx) {
 			}
 		}
 		treeWrites(c, e, cs, r8, "variable coercion")
+		// ---- R9 index safety of everything the coercer runs
+		r9 := c.Rule("R9", "index and slice expressions reachable from VariableValues are in bounds", 10)
+		c02IndexSafety(c, r9, cs)
 	}
 }
 
